@@ -414,6 +414,10 @@ func MutateTokens(src []byte, vocab []string, r *Rng, steps int) []byte {
 // paths accept: beyond int64, beyond float64, non-ASCII digits, odd radix and separators.
 var edgeLiterals = []string{
 	"0xFF", "0b1010", "1_000", "-5", "+3", "0o17", "0777",
+	// radix literals at the int64 / uint64 boundaries
+	"0x7FFFFFFFFFFFFFFF", "0x8000000000000000", "0xFFFFFFFFFFFFFFFF", "0x10000000000000000", "0xFFFFFFFFFFFFFFFFFFFF",
+	"0b111111111111111111111111111111111111111111111111111111111111111", "0b1000000000000000000000000000000000000000000000000000000000000000",
+	"0o777777777777777777777", "0o1777777777777777777777", "0o2000000000000000000000", "-0x8000000000000000", "0X1F", "0B11", "0O17", "0d19", "0x_1", "0x1_F",
 	"9223372036854775807", "9223372036854775808", "18446744073709551615", "123456789012345678901234567890",
 	"-9223372036854775809", "1e400", "1.5e-400", "1.7976931348623157e309", "0.0000000000000000000000001",
 	"1__2", "1_", "0x", "0b", "0xZZ", "1.2.3", "1..", "12abc", "\u0661\u0662\u0663", "\uff11\uff12", "3.", ".5",
